@@ -520,12 +520,45 @@ var docFaultOps = []docFaultOp{
 					}
 					v.Default = nil
 				default: // nullable without default where the position is non-null
-					if !u.Loc.NonNull || u.LocDefault {
-						return false
+					if !u.Loc.NonNull || u.LocDefault || u.OneOf {
+						return false // (a oneOf use is the business of oneof-nullable-variable)
 					}
 					v.Type = cloneType(v.Type)
 					v.Type.NonNull = false
 					v.Default = nil
+				}
+				changed = true
+			}
+		}
+		return changed
+	}},
+	{"oneof-nullable-variable", "ValuesOfCorrectType", func(t *rapid.T, td *TypedDoc, s *ref.Schema) bool {
+		// the single value of a oneOf input object must be a non-nullable variable; a default
+		// value does not help (unlike VariablesInAllowedPosition)
+		var uses []VarUse
+		for _, u := range td.Uses {
+			if u.OneOf {
+				uses = append(uses, u)
+			}
+		}
+		if len(uses) == 0 {
+			return false
+		}
+		u := uses[pickN(t, "use", len(uses))]
+		withDefault := rapid.Bool().Draw(t, "withDefault")
+		changed := false
+		for _, op := range td.Doc.Ops {
+			for _, v := range op.Vars {
+				if v.Name != u.Value.Raw {
+					continue
+				}
+				v.Type = cloneType(v.Type)
+				v.Type.NonNull = false
+				v.Default = nil
+				if withDefault {
+					nn := *u.Loc
+					nn.NonNull = true
+					v.Default = ConstOfType(t, func(n string) *ref.TypeDef { return s.Types[n] }, &nn, 1, false)
 				}
 				changed = true
 			}
@@ -889,6 +922,27 @@ func ApplyDocFault(t *rapid.T, td *TypedDoc, s *ref.Schema, idx int) (DocFault, 
 		op := docFaultOps[(idx+k)%len(docFaultOps)]
 		if op.f(t, td, s) {
 			return DocFault{Name: op.name, Rule: op.rule}, true
+		}
+	}
+	return DocFault{}, false
+}
+
+// rareDocFaults have a target in few documents; drawing the fault uniformly leaves them with a
+// handful of cases per run, so a third of the faulty documents try these first.
+var rareDocFaults = []string{"oneof-nullable-variable", "oneof-wrong-key-count-or-null", "missing-required-input-field", "unknown-input-field", "duplicate-input-field",
+	"conflict-leaf-vs-composite-in-exclusive-branches", "conflict-leaf-types-in-exclusive-branches", "subscription-introspection-root", "subscription-two-root-fields",
+	"int-outside-32-bits", "fragment-definition-on-input-type", "undefined-variable-nested", "duplicate-fragment-name", "variable-in-incompatible-position"}
+
+// ApplyRareDocFault injects the first rarely applicable fault that has a target, starting at a
+// drawn position of the list.
+func ApplyRareDocFault(t *rapid.T, td *TypedDoc, s *ref.Schema) (DocFault, bool) {
+	start := rapid.IntRange(0, len(rareDocFaults)-1).Draw(t, "rare")
+	for k := 0; k < len(rareDocFaults); k++ {
+		name := rareDocFaults[(start+k)%len(rareDocFaults)]
+		for _, op := range docFaultOps {
+			if op.name == name && op.f(t, td, s) {
+				return DocFault{Name: op.name, Rule: op.rule}, true
+			}
 		}
 	}
 	return DocFault{}, false
